@@ -134,6 +134,10 @@ pub struct Sys {
     mgr_failures: BTreeMap<u8, usize>,
     snapshot: ManagerSnapshot,
     violations: Vec<Viol>,
+    /// the last stimulus made the manager pick a strict subset of a peer's addresses and the cut fell between
+    /// equally scored addresses: which ones were picked is decided by HashMap iteration order inside litep2p, so
+    /// the successor is not reproducible and is not expanded
+    tie_cut: bool,
     // declared last: dropped last
     rt: std::sync::Arc<tokio::runtime::Runtime>,
 }
@@ -187,6 +191,13 @@ impl MgrModel {
                         let used = sys.accepted.values().filter(|(_, inbound)| !*inbound).count();
                         if addresses.len() > max_out.saturating_sub(used) {
                             self.v(sys, "c10/more-addresses-than-free-capacity", format!("open({id}) with {} addresses, free outbound capacity {}", addresses.len(), max_out.saturating_sub(used)));
+                        }
+                    }
+                    let book: Vec<(Multiaddr, i32)> = pre.peers.iter().find(|ps| ps.peer == peer(p)).map(|ps| ps.address_book.clone()).unwrap_or_default();
+                    let best_left = book.iter().filter(|(a, _)| !addresses.contains(a)).map(|(_, s)| *s).max();
+                    if let (Some(worst_taken), Some(best_left)) = (sc.iter().min(), best_left) {
+                        if *worst_taken == best_left {
+                            sys.tie_cut = true;
                         }
                     }
                     for a in &addresses {
@@ -529,6 +540,7 @@ impl Model for MgrModel {
             mgr_failures: BTreeMap::new(),
             snapshot,
             violations: Vec::new(),
+            tie_cut: false,
             rt: rt.clone(),
         }
     }
@@ -752,6 +764,9 @@ impl Model for MgrModel {
         }
         if !known.is_empty() {
             return Ok(Step::Findings(known));
+        }
+        if sys.tie_cut {
+            return Ok(Step::Prune);
         }
         Ok(Step::Ok)
     }
